@@ -783,6 +783,32 @@ pub fn http_body_chunking() -> Value {
 			}
 		}
 	}
+	// C19: a body ABOVE the limit gets one answer ("too big") however it is chunked and whether or not its length is declared --
+	// also when its first bytes could be called malformed
+	for (what, first) in [("a call", b'{'), ("text that is no JSON-RPC message", b'x'), ("129 leading blanks", b' ')] {
+		for over in [1usize, 77] {
+			let total = 1024 + over;
+			let mut b = vec![first; if first == b' ' { 129 } else { 1 }];
+			while b.len() < total { b.push(b'1'); }
+			let with_cl = read_chunks(vec![b.clone()], Some(total));
+			let mut variants: Vec<(String, Vec<Vec<u8>>, Option<usize>)> = vec![("one chunk, no Content-Length".into(), vec![b.clone()], None)];
+			for cut in [1usize, 2, 130, 600, 1024, total - 1] {
+				variants.push((format!("chunks of {cut} + {} bytes, no Content-Length", total - cut), vec![b[..cut].to_vec(), b[cut..].to_vec()], None));
+				variants.push((format!("chunks of {cut} + {} bytes, Content-Length: {total}", total - cut), vec![b[..cut].to_vec(), b[cut..].to_vec()], Some(total)));
+			}
+			variants.push(("every 100 bytes a chunk, no Content-Length".into(), b.chunks(100).map(|c| c.to_vec()).collect(), None));
+			for (how, chunks, cl) in variants {
+				tried += 1;
+				let got = read_chunks(chunks, cl);
+				if got != with_cl || got.is_ok() {
+					return json!({"probe":"http_body_chunking","disagrees":true,
+						"input": format!("body of {total} bytes ({what}), limit 1024: {how}"),
+						"observed": format!("{:?}", got.map(|(b, s)| (b.len(), s))),
+						"expected": format!("{:?} (the outcome for the same bytes in one chunk with Content-Length: {total})", with_cl.clone().map(|(b, s)| (b.len(), s)))});
+				}
+			}
+		}
+	}
 	// C07: a declared length within the limit does not switch off the counting of the actual body
 	{
 		tried += 1;
